@@ -59,12 +59,20 @@ func (p *Parser) Parse(input string) (*ParserResult, error) {
 		return result, result.Error
 	}
 
+	return p.ParseContent(inputResult.Content)
+}
+
+// ParseContent parses SQL text that is known to be SQL (the content of stdin,
+// for instance): no guessing whether it might be a file name.
+func (p *Parser) ParseContent(content []byte) (*ParserResult, error) {
+	result := &ParserResult{}
+
 	// Use pooled tokenizer
 	tkz := tokenizer.GetTokenizer()
 	defer tokenizer.PutTokenizer(tkz)
 
 	// Tokenize
-	tokens, err := tkz.Tokenize(inputResult.Content)
+	tokens, err := tkz.Tokenize(content)
 	if err != nil {
 		result.Error = fmt.Errorf("tokenization failed: %w", err)
 		return result, result.Error
